@@ -100,6 +100,7 @@ original code is accessible using the `CODE` attribute
 
 # `noqa` comments below avoid linters mistakenly finding imports needed for
 # `exec` calls in this module
+import ast
 import enum
 import itertools
 import keyword
@@ -715,9 +716,11 @@ def parse_model(model: str, *, check_syntax: bool = True) -> List[Symbol]:
         equation_symbols = parse_equation(statement)
 
         if check_syntax:
-            equation_code = [s.code for s in equation_symbols if s.code is not None]
+            symbols_with_code = [s for s in equation_symbols if s.code is not None]
 
-            for e in equation_code:
+            for s in symbols_with_code:
+                e = s.code
+
                 with warnings.catch_warnings(record=True) as w:
                     warnings.simplefilter('always')
 
@@ -728,6 +731,20 @@ def parse_model(model: str, *, check_syntax: bool = True) -> List[Symbol]:
                     except SyntaxError:
                         problem_statements.append((i, statement, e))
                         break
+
+                    # Check that an equation (as opposed to verbatim code) is a
+                    # single, plain assignment to one (indexed) variable
+                    if s.type != Type.VERBATIM:
+                        body = ast.parse(e).body
+
+                        if not (
+                            len(body) == 1
+                            and isinstance(body[0], ast.Assign)
+                            and len(body[0].targets) == 1
+                            and isinstance(body[0].targets[0], ast.Subscript)
+                        ):
+                            problem_statements.append((i, statement, e))
+                            break
 
                     # Check for warnings and treat them as errors
                     if len(w) == 0:
